@@ -71,6 +71,36 @@ class RS(numbers.Real if False else object):
 
     __rmul__ = __mul__
 
+    def _cmp(self, o, f):
+        from engine.symex import SymBool, Unsupported
+
+        t, r = self._o(o)
+        if t is None:
+            return NotImplemented
+        if self.row or r:
+            raise Unsupported("comparison of an angle array in a Boolean context")
+        return SymBool(f(self.t, t))  # forks: special-casing of particular angle values is explored on both sides
+
+    def __eq__(self, o):
+        return self._cmp(o, lambda a, b: a == b)
+
+    def __ne__(self, o):
+        return self._cmp(o, lambda a, b: a != b)
+
+    def __lt__(self, o):
+        return self._cmp(o, lambda a, b: a < b)
+
+    def __le__(self, o):
+        return self._cmp(o, lambda a, b: a <= b)
+
+    def __gt__(self, o):
+        return self._cmp(o, lambda a, b: a > b)
+
+    def __ge__(self, o):
+        return self._cmp(o, lambda a, b: a >= b)
+
+    __hash__ = None
+
 
 class R3:
     """(3,) vector of RS, or generic row of an (n,3) array"""
@@ -195,24 +225,38 @@ def run(rep, tier):
         ret = Tok("ret")
         o.rotate = lambda *a, **k: (rcalls.append((a, k)), ret)[1]
         anc, st = Tok("anchor"), Tok("start")
-        out = o.rotate_from_angax(RS(t, row=vec_angle), R3([RS(x) for x in ax]), anchor=anc, start=st, degrees=deg)
-        name = f"rotate_from_angax[angle={'vector' if vec_angle else 'scalar'},degrees={deg}]"
-        okc = len(rec.calls) == 1 and rec.calls[0][0] == "from_rotvec" and len(rcalls) == 1 and out is ret
-        if okc:
-            a, kk = rcalls[0]
-            full = dict(zip(("rotation", "anchor", "start"), a))
-            full.update(kk)
-            okc = full.get("rotation") is rec.calls[0][3] and full.get("anchor") is anc and full.get("start") is st
-            okc = okc and not rec.calls[0][2].get("degrees", False)
-        fails += _structural(rep, name + ".forwards-rot-anchor-start", okc, describe(cls.rotate_from_angax)["function"])
-        if okc:
-            rv = rec.calls[0][1][0]
-            nrm = NORM(*ax)
-            rad = t * PI / 180 if deg else t
-            goal = z3.And(*[rv.c[i].t == ax[i] / nrm * rad for i in range(3)], rv.row == vec_angle)
-            r = solve.discharge([nrm > 0, PI > 3], goal)
-            rep.obligation(name + ".rotvec==axis/|axis|*angle_rad", r, describe(cls.rotate_from_angax)["function"], "post")
-            if r["status"] == "refuted":
-                fails.append((name + ".rotvec", {"status": "refuted", "hint": {}, "model_str": str(r.get("model"))}, "rotation vector differs from axis/|axis|*angle[rad]", dict(op="wrapper")))
+        from engine.symex import explore
+
+        def body():
+            del rcalls[:]
+            del rec.calls[:]
+            return o.rotate_from_angax(RS(t, row=vec_angle), R3([RS(x) for x in ax]), anchor=anc, start=st, degrees=deg)
+
+        for pi_, (ctx, (kind, out)) in enumerate(explore(body), 1):
+            name = f"rotate_from_angax[angle={'vector' if vec_angle else 'scalar'},degrees={deg}]@path{pi_}"
+            if kind != "ok":
+                stt = "unknown" if kind == "unsupported" else "refuted"
+                rep.obligation(name + ".no-exception", {"status": stt, "backend": "symex", "time_s": 0, "reason": str(out)[:200]}, describe(cls.rotate_from_angax)["function"])
+                if stt == "refuted":
+                    fails.append((name + ".no-exception", {"status": "refuted", "hint": {}, "model_str": ""}, repr(out), dict(op="wrapper")))
+                continue
+            okc = len(rec.calls) == 1 and rec.calls[0][0] == "from_rotvec" and len(rcalls) == 1 and out is ret
+            if okc:
+                a, kk = rcalls[0]
+                full = dict(zip(("rotation", "anchor", "start"), a))
+                full.update(kk)
+                okc = full.get("rotation") is rec.calls[0][3] and full.get("anchor") is anc and full.get("start") is st
+                okc = okc and not rec.calls[0][2].get("degrees", False)
+            fails += _structural(rep, name + ".forwards-rot-anchor-start(for-every-angle-value)", okc, describe(cls.rotate_from_angax)["function"],
+                                 f"path condition {[str(c) for c in ctx.pc]}: rotate() is not called with the equivalent rotation")
+            if okc:
+                rv = rec.calls[0][1][0]
+                nrm = NORM(*ax)
+                rad = t * PI / 180 if deg else t
+                goal = z3.And(*[rv.c[i].t == ax[i] / nrm * rad for i in range(3)], rv.row == vec_angle)
+                r = solve.discharge(list(ctx.pc) + [nrm > 0, PI > 3], goal)
+                rep.obligation(name + ".rotvec==axis/|axis|*angle_rad", r, describe(cls.rotate_from_angax)["function"], "post")
+                if r["status"] == "refuted":
+                    fails.append((name + ".rotvec", {"status": "refuted", "hint": {}, "model_str": str(r.get("model"))}, "rotation vector differs from axis/|axis|*angle[rad]", dict(op="wrapper")))
     rep.assumed_contract("scipy Rotation.from_rotvec/from_euler/from_matrix/from_mrp/from_quat: the documented parametrisations")
     return fails
